@@ -102,6 +102,9 @@ class DocRunner:
             if source.get("decor"):
                 data = corpus.decorate(data)
                 self.labels.add("comments-and-PIs")
+            if source.get("variant"):
+                data = corpus.variant(data, source["variant"])
+                self.labels.add("source-variant:" + source["variant"])
             how = source["how"]
             if how == "path":
                 # private copy: the check never works on the repository's files in place
@@ -300,7 +303,9 @@ class DocRunner:
         if not names:
             return
         added = [n for n in getattr(self, "added", []) if n in names]
-        if op.get("pick") == "added" and added:
+        if op.get("pick") == "last-added" and added:
+            names = [added[-1]]
+        elif op.get("pick") == "added" and added:
             names = added
         name = names[op.get("i", 0) % len(names)]
         self.doc.del_part(name)
@@ -358,7 +363,7 @@ class DocRunner:
         names = [p.name for p in corpus.sample_files() if p.suffix == ".odt" and p.stat().st_size < 40000]
         # sources whose styles reference pictures: two samples, and synthetic ones sharing the add_file contents
         names += ["example.odp", "background.odp", "synth:0", "synth:1", "synth:2", "synth:3", "synth:0", "synth:1"]
-        name = names[op.get("i", 0) % len(names)]
+        name = op["i"] if isinstance(op.get("i"), str) else names[op.get("i", 0) % len(names)]
         if name.startswith("synth:"):
             c = int(name[6:])
             data = PNG + bytes([c])
@@ -662,6 +667,9 @@ def sources(ctx, big=False):
             out.append({"kind": "sample", "name": p.name, "how": how})
         if p.stat().st_size < 30_000:
             out.append({"kind": "sample", "name": p.name, "how": ("path", "bytesio", "folder")[len(out) % 3], "decor": True})
+            # other encodings of the XML parts, repeated directory entries in the zip directory
+            v = ("latin1", "utf16", "dupdirs")[len(out) % 3]
+            out.append({"kind": "sample", "name": p.name, "how": ("path", "bytesio") [len(out) % 2] if v != "dupdirs" else "path", "variant": v})
         if p.suffix in (".odt", ".ods", ".odp", ".odg", ".ott", ".ots", ".otp", ".otg") and p.stat().st_size < 40_000:
             out.append({"kind": "new", "name": p.name, "how": "path" if len(out) % 2 else "bytesio"})
     return out
@@ -757,6 +765,22 @@ def make_doc_machine(ctx, prop, extra_ops=()):
         def edit_kept(self, which):
             if self.r is not None and not self.r.dead and self.r.kept:
                 self.go({"op": "edit_kept", "which": which})
+
+        if prop == "C04":
+            @rule(c=st.integers(0, 3), path=st.booleans(), again=st.sampled_from(["merge", "merge", "add_file", "both"]), reopen=st.booleans())
+            def readd_after_delete(self, c, path, again, reopen):
+                """a picture is added, deleted, and the same name comes back (merged styles referencing it, or the same file
+                added again), then the package is saved: four steps that seldom line up by chance"""
+                r = self.r
+                if r is None or r.dead:
+                    return
+                self.go({"op": "add_file", "c": c, "path": path, "frame": False})
+                self.go({"op": "del_part", "i": 0, "pick": "last-added"})
+                if again in ("merge", "both"):
+                    self.go({"op": "merge_styles", "i": {0: "synth:0", 1: "synth:1", 2: "synth:2", 3: "synth:3"}[c % 4]})
+                if again in ("add_file", "both"):
+                    self.go({"op": "add_file", "c": c, "path": path, "frame": False})
+                self.go({"op": "save", "packaging": "zip", "target": "bytesio", "reopen": reopen, "pretty": False})
 
         @rule(pre=st.sampled_from(["del_part", "del_part", "add_file", "paragraph", "none"]), i=st.integers(0, 9), c=st.integers(0, 3),
               post=st.sampled_from(["zip-bytesio", "zip-path", "same", "folder"]))
